@@ -87,12 +87,13 @@ func skSeqs(ns []*skNode) *skNode {
 type skelErr struct{ msg string }
 
 type skelX struct {
-	fset    *token.FileSet
-	funcs   map[string]*ast.FuncDecl // "App.m" for methods on *App / App, "f" for functions
-	hasInt  map[string]int           // memo: 0 unknown, 1 computing, 2 no, 3 yes
-	stack   map[string]bool
-	goBody  *skNode // body of the `go func(){…}()` found while walking (runServer has exactly one)
-	goCount int
+	loopLabel string // label on the event loop itself, when it is left by `break <label>` instead of `goto`
+	fset      *token.FileSet
+	funcs     map[string]*ast.FuncDecl // "App.m" for methods on *App / App, "f" for functions
+	hasInt    map[string]int           // memo: 0 unknown, 1 computing, 2 no, 3 yes
+	stack     map[string]bool
+	goBody    *skNode // body of the `go func(){…}()` found while walking (runServer has exactly one)
+	goCount   int
 }
 
 func (x *skelX) fail(n ast.Node, format string, a ...any) {
@@ -365,6 +366,10 @@ func (x *skelX) stmt(s ast.Stmt) *skNode {
 		if v.Tok == token.GOTO && v.Label != nil {
 			return &skNode{kind: "G", name: v.Label.Name}
 		}
+		// `break <label of the event loop>` is the same control flow as `goto <label right after the loop>`
+		if v.Tok == token.BREAK && v.Label != nil && x.loopLabel != "" && v.Label.Name == x.loopLabel {
+			return &skNode{kind: "G", name: "after " + x.loopLabel}
+		}
 		x.fail(v, "branch statement %s", v.Tok)
 	case *ast.DeferStmt:
 		// deferred calls run when the function returns; none of the calls of interest may hide there
@@ -465,6 +470,8 @@ func (x *skelX) tryIdiom(v *ast.IfStmt) (*skNode, bool) {
 	return body, true
 }
 
+func isFor(s ast.Stmt) bool { _, ok := s.(*ast.ForStmt); return ok }
+
 type skelOut struct {
 	name string
 	term *skNode
@@ -547,6 +554,9 @@ func extractSkeletons(repo string) []skelOut {
 		case loop == nil:
 			if f, ok := s.(*ast.ForStmt); ok {
 				loop = f
+			} else if ls, ok := s.(*ast.LabeledStmt); ok && isFor(ls.Stmt) {
+				loop = ls.Stmt.(*ast.ForStmt)
+				x.loopLabel = ls.Label.Name
 			} else {
 				pre = append(pre, s)
 			}
@@ -600,6 +610,10 @@ func extractSkeletons(repo string) []skelOut {
 		}
 		ls, ok := post[0].(*ast.LabeledStmt)
 		if !ok {
+			if x.loopLabel != "" {
+				// the loop is left by `break <its label>`: what follows it plays the part of the labelled statement
+				return skSeq(&skNode{kind: "C", name: "label", qual: "after " + x.loopLabel}, x.block(post))
+			}
 			x.fail(post[0], "the statement after the event loop carries no label")
 		}
 		rest := append([]ast.Stmt{ls.Stmt}, post[1:]...)
